@@ -216,7 +216,7 @@ func NewMemKV(on func(puts map[string][]byte, dels [][]byte, kind string)) stora
 
 // WStats collects coverage.
 type WStats struct {
-	Traces, Events, Panics, Commits, GCs, Owners, Rollbacks int
+	Traces, Events, Panics, Commits, GCs, Owners, Rollbacks, Forks int
 	Distinct                                                map[string]bool
 	Modes                                                   map[string]int
 }
@@ -433,7 +433,17 @@ func RunWMPT(w *tr.Writer, in *tr.Interner, st *WStats, tid int, h WHist) {
 			r.reopen("gc")
 		case "reload":
 			root, weight := r.durRoot, r.durWeight
-			if weight == 0 {
+			if fk := st.Events + tid; fk%3 == 2 {
+				// the other way to a new trie object over the same storage: a copy of the in-memory upper levels of the clean
+				// trie with hash references below (CopyRoot), as a new block's trie is made from its predecessor's
+				lvl := []int{0, 1, 2, 3, 64}[(fk/3)%5]
+				src := r.t
+				res := Guard(func() string { r.t = wmpt.New(src.CopyRoot(lvl), r.db); return "ok" })
+				if res != "ok" {
+					st.Panics++
+				}
+				st.Forks++
+			} else if weight == 0 {
 				r.t = wmpt.New(nil, r.db)
 			} else {
 				r.t = wmpt.New(wmpt.NewHashNode(root, weight), r.db)
